@@ -1,8 +1,344 @@
-/- C05 — CSV output parses back, under RFC 4180 quoting, to exactly the table. -/
-import Tabmodel.Model.Csv
-namespace Tab
+/- C05 — CSV output parses back, under RFC 4180 quoting, to exactly the table.
 
-/-- placeholder while the pipeline is brought up: the escaped body never ends a field early -/
-theorem c05_escape_shape (s : Bytes) : csvEscape s = DQ :: csvEscBody s ++ [DQ] := rfl
+   Spec side (independent of the renderer): a strict all-fields-quoted RFC 4180 reader
+   `parse4180`, the expected record list `records`, and the shape hypothesis `WFShape`.
+   Model side: `renderCsv` (Model/Csv.lean, mirrors `/repo/csv/csv.go`). -/
+import Tabmodel.Model.Csv
+import Tabmodel.Proofs.EmitLemmas
+import Tabmodel.Proofs.C05
+import Tabmodel.Spec.Shape
+namespace Tab
+open Emit
+
+/-! ### The reader -/
+
+/-- Body of a quoted field, the opening quote already consumed: returns the field's bytes and
+the input after the closing quote.  `""` is a literal quote; a quote followed by anything else
+(or by the end of input) closes the field; every other byte (comma, CR, LF, NUL, ≥0x80 …) is
+content.  `none` if the input ends inside the quotes. -/
+def readBody : Bytes → Option (Bytes × Bytes)
+  | [] => none
+  | [b] => if b = DQ then some ([], []) else none
+  | b :: b' :: bs =>
+    if b = DQ then
+      if b' = DQ then
+        match readBody bs with
+        | some (s, r) => some (DQ :: s, r)
+        | none => none
+      else some ([], b' :: bs)
+    else
+      match readBody (b' :: bs) with
+      | some (s, r) => some (b :: s, r)
+      | none => none
+
+/-- One record: quoted fields separated by `,`, terminated by LF.  Every field must open with a
+quote, and the closing quote must be followed by `,` or LF.  Fuel: one unit per field. -/
+def readRecord : Nat → Bytes → Option (List Bytes × Bytes)
+  | 0, _ => none
+  | _ + 1, [] => none
+  | fuel + 1, q :: inp =>
+    if q = DQ then
+      match readBody inp with
+      | none => none
+      | some (_, []) => none
+      | some (s, c :: rest) =>
+        if c = LF then some ([s], rest)
+        else if c = COMMA then
+          match readRecord fuel rest with
+          | some (fs, r) => some (s :: fs, r)
+          | none => none
+        else none
+    else none
+
+/-- Records until the input is exhausted; the input may only end right after an LF
+(or be empty: zero records).  Fuel: one unit per record plus one. -/
+def readRecords : Nat → Bytes → Option (List (List Bytes))
+  | 0, _ => none
+  | _ + 1, [] => some []
+  | fuel + 1, b :: bs =>
+    match readRecord ((b :: bs).length + 1) (b :: bs) with
+    | none => none
+    | some (r, rest) =>
+      match readRecords fuel rest with
+      | some rs => some (r :: rs)
+      | none => none
+
+/-- Strict RFC 4180 all-fields-quoted reader (LF record terminator, as the library writes).
+Fields and records each take at least three bytes, so `length + 1` fuel never runs out on an
+input the grammar accepts. -/
+def parse4180 (inp : Bytes) : Option (List (List Bytes)) := readRecords (inp.length + 1) inp
+
+/-! ### What the output must parse to -/
+
+/-- the texts of a row's cells, padded on the right with empty fields to exactly `n` fields -/
+def padRow (n : Nat) (cells : List RCell) : List Bytes :=
+  cells.map (·.text) ++ List.replicate (n - cells.length) []
+
+/-- header row (if any), then every non-separator row in order, each padded to `ncols` fields -/
+def records (v : RTable) : List (List Bytes) :=
+  (match v.header with
+    | some hs => [padRow v.ncols hs]
+    | none => []) ++
+  v.rows.filterMap (fun r => r.map (padRow v.ncols))
+
+/-! ### Reader lemmas -/
+
+private theorem readBody_DQ_DQ (t : Bytes) :
+    readBody (DQ :: DQ :: t) =
+      match readBody t with
+      | some (s, r) => some (DQ :: s, r)
+      | none => none := by
+  simp [readBody]
+
+private theorem readBody_cons_ne {b : UInt8} (hb : b ≠ DQ) (t : Bytes) :
+    readBody (b :: t) =
+      match readBody t with
+      | some (s, r) => some (b :: s, r)
+      | none => none := by
+  cases t with
+  | nil => simp [readBody, hb]
+  | cons b' bs => simp [readBody, hb]
+
+/-- **Escape inverse.**  For every byte string `s` (quotes, commas, CR, LF, NUL, invalid UTF-8 —
+anything), reading a field body from the escaped `s` followed by the closing quote and any
+continuation `rest` that does not itself begin with a quote yields exactly `s` and `rest`. -/
+theorem c05_escape_inverse (s rest : Bytes) (hrest : rest.head? ≠ some DQ) :
+    readBody (csvEscBody s ++ DQ :: rest) = some (s, rest) := by
+  induction s with
+  | nil =>
+    cases rest with
+    | nil => simp [csvEscBody, readBody]
+    | cons c r =>
+      have hc : c ≠ DQ := by simpa using hrest
+      simp [csvEscBody, readBody, hc]
+  | cons b s ih =>
+    by_cases hb : b = DQ
+    · subst hb
+      simp only [csvEscBody, if_true, List.cons_append]
+      rw [readBody_DQ_DQ, ih]
+    · simp only [csvEscBody, if_neg hb, List.cons_append]
+      rw [readBody_cons_ne hb, ih]
+
+private theorem csvEncRow_length (fs : List Bytes) : fs.length ≤ (csvEncRow fs).length := by
+  induction fs with
+  | nil => simp
+  | cons f fs ih =>
+    cases fs with
+    | nil => simp [csvEncRow]
+    | cons f' fs =>
+      rw [csvEncRow_cons_ne _ (by simp)]
+      simp only [List.length_append, List.length_cons] at ih ⊢
+      omega
+
+private theorem readRecord_enc (fs : List Bytes) (hne : fs ≠ []) (rest : Bytes) (fuel : Nat)
+    (hf : fs.length ≤ fuel) : readRecord fuel (csvEncRow fs ++ rest) = some (fs, rest) := by
+  induction fs generalizing fuel with
+  | nil => exact absurd rfl hne
+  | cons f fs ih =>
+    obtain ⟨fuel, rfl⟩ : ∃ k, fuel = k + 1 := ⟨fuel - 1, by simp at hf; omega⟩
+    cases fs with
+    | nil =>
+      have h := c05_escape_inverse f (LF :: rest) (by simp [LF, DQ])
+      simp only [csvEncRow, csvEscape, List.cons_append, List.append_assoc, List.nil_append]
+      simp only [readRecord, if_true, h]
+    | cons f' fs =>
+      have h := c05_escape_inverse f (COMMA :: (csvEncRow (f' :: fs) ++ rest)) (by simp [COMMA, DQ])
+      have ih' := ih (by simp) fuel (by simpa using hf)
+      rw [csvEncRow_cons_ne _ (by simp)]
+      simp only [csvEscape, List.cons_append, List.append_assoc, List.nil_append]
+      simp only [readRecord, if_true, h, ih']
+      simp [COMMA, LF]
+
+private theorem readRecords_enc (recs : List (List Bytes)) (hne : ∀ r ∈ recs, r ≠ []) (fuel : Nat)
+    (hf : recs.length < fuel) : readRecords fuel (recs.flatMap csvEncRow) = some recs := by
+  induction recs generalizing fuel with
+  | nil =>
+    obtain ⟨fuel, rfl⟩ : ∃ k, fuel = k + 1 := ⟨fuel - 1, by simp at hf; omega⟩
+    rfl
+  | cons r recs ih =>
+    obtain ⟨fuel, rfl⟩ : ∃ k, fuel = k + 1 := ⟨fuel - 1, by omega⟩
+    have hr : r ≠ [] := hne r (by simp)
+    have ih' := ih (fun x hx => hne x (by simp [hx])) fuel (by simpa using hf)
+    rw [List.flatMap_cons]
+    have hlen := csvEncRow_length r
+    cases hin : csvEncRow r ++ recs.flatMap csvEncRow with
+    | nil =>
+      have : (csvEncRow r ++ recs.flatMap csvEncRow).length = 0 := by rw [hin]; rfl
+      have : r.length = 0 := by simp only [List.length_append] at this; omega
+      exact absurd (List.eq_nil_of_length_eq_zero this) hr
+    | cons b bs =>
+      have hrec := readRecord_enc r hr (recs.flatMap csvEncRow) ((b :: bs).length + 1) (by
+        rw [← hin]; simp only [List.length_append]; omega)
+      rw [hin] at hrec
+      simp only [readRecords, hrec, ih']
+
+/-- the spec's record list is the one the model-side lemmas talk about -/
+private theorem records_eq (v : RTable) : records v = csvRecs v := by
+  unfold records csvRecs csvRowRecs
+  cases v.header with
+  | none => rfl
+  | some hs => rfl
+
+private theorem padRow_length {n : Nat} {cells : List RCell} (h : cells.length ≤ n) :
+    (padRow n cells).length = n := by
+  simp [padRow]; omega
+
+private theorem wf_header {v : RTable} (hw : WFShape v) :
+    ∀ hs, v.header = some hs → hs.length ≤ v.ncols := hw.1
+
+private theorem wf_rows {v : RTable} (hw : WFShape v) :
+    ∀ cells, some cells ∈ v.rows → cells.length ≤ v.ncols := hw.2
+
+/-! ### The property -/
+
+/-- A table with no columns is refused with the "no columns" error and writes nothing. -/
+theorem c05_refuse (v : RTable) (h0 : v.ncols = 0) :
+    (renderCsv v).res = .error (.err .noColumns) ∧ (renderCsv v).chunks = [] := by
+  rw [renderCsv_noColumns h0]; exact ⟨rfl, rfl⟩
+
+/-- With at least one column and no over-wide row, rendering succeeds: the structural error
+branch is not taken and nothing panics (in particular the zero-cell row does not index `cells[0]`). -/
+theorem c05_total (v : RTable) (h1 : 1 ≤ v.ncols) (hw : WFShape v) : (renderCsv v).res = .ok () :=
+  (renderCsv_ok h1 (wf_header hw) (wf_rows hw)).1
+
+/-- Every expected record has exactly `ncols` fields. -/
+theorem c05_field_count (v : RTable) (_h1 : 1 ≤ v.ncols) (hw : WFShape v) :
+    ∀ r ∈ records v, r.length = v.ncols := by
+  intro r hr
+  unfold records at hr
+  rcases List.mem_append.1 hr with hh | hb
+  · cases hhd : v.header with
+    | none => rw [hhd] at hh; simp at hh
+    | some hs =>
+      rw [hhd] at hh
+      have : r = padRow v.ncols hs := by simpa using hh
+      rw [this]; exact padRow_length (wf_header hw hs hhd)
+  · obtain ⟨row, hrow, hmap⟩ := List.mem_filterMap.1 hb
+    cases row with
+    | none => simp at hmap
+    | some cells =>
+      have : padRow v.ncols cells = r := by simpa using hmap
+      rw [← this]; exact padRow_length (wf_rows hw cells hrow)
+
+/-- **Round trip.**  The complete output, read by the strict RFC 4180 reader, is exactly the header
+row (if any) followed by each non-separator row in order, each with `ncols` fields (see
+`c05_field_count`), each field byte-for-byte the cell text, missing cells as empty fields. -/
+theorem c05_roundtrip (v : RTable) (h1 : 1 ≤ v.ncols) (hw : WFShape v) :
+    parse4180 (renderCsv v).output = some (records v) := by
+  have hout := (renderCsv_ok h1 (wf_header hw) (wf_rows hw)).2
+  have hcount := c05_field_count v h1 hw
+  rw [hout, ← records_eq]
+  unfold parse4180
+  apply readRecords_enc
+  · intro r hr hnil
+    have := hcount r hr
+    rw [hnil] at this
+    simp at this
+    omega
+  · have hl : ∀ recs : List (List Bytes), recs.length ≤ (recs.flatMap csvEncRow).length := by
+      intro recs
+      induction recs with
+      | nil => simp
+      | cons r recs ih =>
+        have : 1 ≤ (csvEncRow r).length := by
+          cases r with
+          | nil => simp [csvEncRow]
+          | cons f fs => have := csvEncRow_length (f :: fs); simp at this ⊢; omega
+        simp only [List.flatMap_cons, List.length_append, List.length_cons]
+        omega
+    have := hl (records v)
+    omega
+
+/-- An over-wide header or row is reported as the structural error, never mis-rendered as a
+successful output (and never a panic). -/
+theorem c05_structural (v : RTable) (h1 : 1 ≤ v.ncols) (hw : ¬ WFShape v) :
+    (renderCsv v).res = .error (.err .structural) := by
+  apply renderCsv_bad h1
+  by_cases hh : ∀ hs, v.header = some hs → hs.length ≤ v.ncols
+  · right
+    have : ¬ ∀ cs, some cs ∈ v.rows → cs.length ≤ v.ncols := fun hall => hw ⟨hh, hall⟩
+    obtain ⟨cs, hr⟩ := Classical.not_forall.1 this
+    obtain ⟨hmem, hnf⟩ := Classical.not_imp.1 hr
+    exact ⟨cs, hmem, Nat.lt_of_not_le hnf⟩
+  · left
+    obtain ⟨hs, hr⟩ := Classical.not_forall.1 hh
+    obtain ⟨heq, hnf⟩ := Classical.not_imp.1 hr
+    exact ⟨hs, heq, Nat.lt_of_not_le hnf⟩
+
+/-- "Whenever CSV rendering succeeds": success is exactly `1 ≤ ncols ∧ WFShape`, so
+`c05_roundtrip`'s hypotheses are no stronger than "rendering succeeded". -/
+theorem c05_ok_iff (v : RTable) : (renderCsv v).res = .ok () ↔ 1 ≤ v.ncols ∧ WFShape v := by
+  constructor
+  · intro hok
+    by_cases h1 : 1 ≤ v.ncols
+    · refine ⟨h1, ?_⟩
+      by_cases hw : WFShape v
+      · exact hw
+      · rw [c05_structural v h1 hw] at hok; cases hok
+    · rw [(c05_refuse v (by omega)).1] at hok; cases hok
+  · exact fun ⟨h1, hw⟩ => c05_total v h1 hw
+
+/-- the property exactly as worded: whenever rendering succeeds, the output parses back -/
+theorem c05_roundtrip_of_ok (v : RTable) (hok : (renderCsv v).res = .ok ()) :
+    parse4180 (renderCsv v).output = some (records v) ∧ ∀ r ∈ records v, r.length = v.ncols :=
+  have h := (c05_ok_iff v).1 hok
+  ⟨c05_roundtrip v h.1 h.2, c05_field_count v h.1 h.2⟩
+
+/-- CSV rendering never panics, for any view at all. -/
+theorem c05_no_panic (v : RTable) (site : String) : (renderCsv v).res ≠ .error (.panic site) := by
+  by_cases h1 : 1 ≤ v.ncols
+  · by_cases hw : WFShape v
+    · rw [c05_total v h1 hw]; intro h; cases h
+    · rw [c05_structural v h1 hw]; intro h; cases h
+  · rw [(c05_refuse v (by omega)).1]; intro h; cases h
+
+/-! ### Non-vacuity: the hypotheses are satisfiable, and the statements evaluate on a concrete view
+
+Two columns; a header whose texts contain `"`, `,`, CR, LF; a short row (one cell, with `""`, NUL,
+0xFF); a zero-cell row; a separator; a full row with an empty cell and a cell containing
+`"`, `,`, `"`, CR, LF, 0x00, 0xFF and a truncated UTF-8 lead byte 0xC3. -/
+
+def c05Example : RTable :=
+  { ncols := 2
+    header := some [{ text := [104, DQ] }, { text := [COMMA, 13, LF] }]
+    rows := [some [{ text := [DQ, DQ, 0, 255] }], some [], none,
+             some [{ text := [] }, { text := [DQ, COMMA, DQ, 13, LF, 0x00, 0xFF, 0xC3] }]]
+    colAlign := [], colSkip := [] }
+
+/-- hypotheses of `c05_total`, `c05_roundtrip`, `c05_field_count` -/
+example : 1 ≤ c05Example.ncols ∧ WFShape c05Example := by decide
+/-- hypothesis of `c05_roundtrip_of_ok` -/
+example : (renderCsv c05Example).res = .ok () := rfl
+example : (renderCsv c05Example).output =
+    [34, 104, 34, 34, 34, 44, 34, 44, 13, 10, 34, 10,        -- "h""",",\r\n"\n
+     34, 34, 34, 34, 34, 0, 255, 34, 44, 34, 34, 10,         -- """""\0\xff",""\n
+     34, 34, 44, 34, 34, 10,                                 -- "",""\n
+     34, 34, 44, 34, 34, 34, 44, 34, 34, 13, 10, 0, 255, 195, 34, 10] := by decide
+example : records c05Example =
+    [[[104, 34], [44, 13, 10]], [[34, 34, 0, 255], []], [[], []],
+     [[], [34, 44, 34, 13, 10, 0, 255, 195]]] := by decide
+example : parse4180 (renderCsv c05Example).output = some (records c05Example) := by decide
+/-- hypothesis of `c05_refuse` -/
+example : ({ c05Example with ncols := 0 } : RTable).ncols = 0 := rfl
+example : (renderCsv { c05Example with ncols := 0 }).res = .error (.err .noColumns) := rfl
+/-- hypotheses of `c05_structural` -/
+example : 1 ≤ ({ c05Example with ncols := 1 } : RTable).ncols ∧ ¬ WFShape { c05Example with ncols := 1 } := by
+  decide
+example : (renderCsv { c05Example with ncols := 1 }).res = .error (.err .structural) := rfl
+/-- hypothesis of `c05_escape_inverse` (continuations the renderer produces: `,` …, LF …, and end) -/
+example : ([COMMA, DQ] : Bytes).head? ≠ some DQ ∧ ([LF] : Bytes).head? ≠ some DQ ∧
+    ([] : Bytes).head? ≠ some DQ := by decide
+example : readBody (csvEscBody [DQ, COMMA, 13, LF, 0, 255, DQ] ++ DQ :: [COMMA, DQ]) =
+    some ([DQ, COMMA, 13, LF, 0, 255, DQ], [COMMA, DQ]) := by decide
+/-- the reader is strict: each of these near-misses is rejected -/
+example : parse4180 [DQ, DQ] = none := by decide                          -- no final LF
+example : parse4180 [DQ, DQ, LF, DQ, DQ, COMMA] = none := by decide        -- ends after a comma
+example : parse4180 [104, LF] = none := by decide                          -- unquoted field
+example : parse4180 [DQ, DQ, 13, LF] = none := by decide                   -- CR after closing quote
+example : parse4180 [DQ, DQ, DQ, LF] = none := by decide                   -- unterminated field
+example : parse4180 [DQ, 104, LF] = none := by decide                      -- unterminated field
+example : parse4180 [LF] = none := by decide                               -- empty line
+example : parse4180 [] = some [] := by decide
+example : parse4180 [DQ, DQ, LF] = some [[[]]] := by decide
 
 end Tab
